@@ -268,17 +268,22 @@ class Histories(SubCheck):
             op, _, mname = ev.partition(":")
             tags = dict(obj=oname, mag=mag, event=ev, step=step, history=case["history"], own=list(own))
             try:
-                if op in ("mul", "imul"):
+                if op in ("mul", "imul", "muls", "imuls"):
                     M = MATS[mname]
                     lm = svg.Matrix(*M)
+                    arg = lm
+                    if op.endswith("s"):
+                        # the right operand as transform text
+                        arg = "matrix(%s)" % ",".join(repr(float(v)) for v in M)
+                        op = op[:-1]
                     if op == "mul":
                         before = observe(svg, x)
-                        y = x * lm
+                        y = x * arg
                         if observe(svg, x) != before:
                             out.fail("X * M modified X", kind="operand", **tags)
                         x = y
                     else:
-                        x *= lm
+                        x *= arg
                     A = af.mul(M, A)
                     libA = libA * lm
                     if mname != "I":
@@ -341,7 +346,7 @@ def build(tier, seed, svg):
     segnames = list(seg_alphabet(svg, 1.0))
     pathnames = list(path_alphabet(svg))
     mats = MNAMES
-    ev_seg = ["mul:" + m for m in mats] + ["imul:" + m for m in mats]
+    ev_seg = ["mul:" + m for m in mats] + ["imul:" + m for m in mats] + ["muls:MX", "muls:GN", "imuls:SWAP", "imuls:S23"]
     ev_shape = ev_seg + ["reify", "abs", "topath"] + ["matmul:" + m for m in ("T", "R30", "S23", "GN")] + ["imatmul:" + m for m in ("T", "S23", "SWAP")]
     depth = 3 if tier == "thorough" else 2
     seg_objs = [(n, mag) for n in segnames for mag in (1.0, 1e-3, 1e5)]
